@@ -752,6 +752,22 @@ func c07exec(c *h.Ctx, cs *h.Case) {
 			}
 			atomic.StoreInt32(&e.holdArmed, 0)
 			suffix = fmt.Sprintf(" held=%d", len(e.holds))
+		case len(tk) == 3 && (tk[1] == "lockrace" || tk[1] == "chanfill"):
+			n, cerr := strconv.Atoi(tk[2])
+			if cerr != nil || n < 1 || n > 5000 || e.wire || e.selfConn != nil {
+				cs.Impl = append(cs.Impl, "bad-op")
+				continue
+			}
+			var sig, msg string
+			if tk[1] == "lockrace" {
+				sig, msg = e.lockrace(c, n, build)
+			} else {
+				sig, msg = e.chanfill(c, n, build)
+			}
+			if sig != "" {
+				fail(sig, fmt.Sprintf("%q: %s", op, msg))
+				return
+			}
 		case len(tk) == 3 && tk[1] == "expire":
 			// the cleaning routine removes the tree, unless an instance uses it
 			tn := tk[2]
@@ -1321,6 +1337,22 @@ func c07gen(c *h.Ctx, yield func(*h.Case)) {
 		}
 		c.Count(fmt.Sprintf("class=rwindow mode=%s inside=%d", m, nb))
 		yield(&h.Case{Class: "rwindow " + m, Ops: ops})
+	}
+	// well-formed messages that meet a busy routine of the server (round-7 seeds): a late message for a finished run and
+	// a config message for it while another instance is shutting down; one run's aggregated channel full
+	for i := 0; i < c.Pick(4, 40); i++ {
+		var ops []string
+		if i%2 == 0 {
+			ops = []string{fmt.Sprintf("c07 state %s direct", []string{"afterdone", "afterdone", "idle", "midrun"}[(i/2)%4]), fmt.Sprintf("c07 lockrace %d", 2+r.Intn(3))}
+			c.Count("class=busy lockrace")
+		} else {
+			ops = []string{fmt.Sprintf("c07 state %s direct", states[r.Intn(3)]), fmt.Sprintf("c07 chanfill %d", 1002+r.Intn(40))}
+			c.Count("class=busy chanfill")
+		}
+		for j := 0; j < 1+r.Intn(3); j++ {
+			ops = append(ops, envs[r.Intn(len(envs))])
+		}
+		yield(&h.Case{Class: "busy direct", Ops: ops})
 	}
 	// several handlers held at once (three-way and wider interleavings): up to three protocol messages wait past their
 	// tree lookup / between IsRegistered and Register while envelopes are handled and unused trees are removed; they go
